@@ -264,7 +264,12 @@ class CustomState(BaseState):
 
         assert isinstance(self.state, jnp.ndarray)
         probabilities = jnp.array(
-            [jnp.trace(jnp.matmul(op, self.state)).real for op in operators]
+            [
+                jnp.trace(
+                    jnp.matmul(op, jnp.matmul(self.state, jnp.conj(op.T)))
+                ).real
+                for op in operators
+            ]
         )
         probabilities = probabilities / jnp.sum(probabilities)
 
